@@ -108,6 +108,8 @@ class ListenTable:
             def async_subscribe(interp, hass_, topic, handler, encoding=None, qos=0):
                 def th():
                     # assumed contract of homeassistant.components.mqtt.async_subscribe: suspends; may raise
+                    # (ghost: did the table already list the topic when the subscriber was suspended?)
+                    tbl.entry_listed_when_suspended = z3.Select(tbl.notify.cols["dom"], topic.t)
                     w.yield_point("mqtt.async_subscribe", cancellable=True)
                     return async_listen(interp, topic, handler)
                 return Coro(th, "mqtt.async_subscribe")
